@@ -195,6 +195,7 @@ let () =
             else if ev.[0] = 't' then EvTermReq (n_of_int (int_of_string tl))
             else if ev = "o" then EvStoppingTimeout
             else if ev = "D" then EvDown
+            else if ev = "T" then EvTimeout
             else if ev.[0] = 'R' then (let (a, al, rs) = split3 tl in EvReauth (aaa_of a, orc_of al rs))
             else
               let i = String.index ev '.' in
@@ -238,12 +239,13 @@ let () =
             | 'j' -> V6Rej (unhex tl)
             | 'R' -> V6Down          (* PPPoE: the renegotiation ends the session before any re-authentication *)
             | 'D' -> V6Down
+            | 'T' -> V6Timeout
             | _ -> failwith "ev" in
           if !ended then ("ended" :: acc, s) else begin
             (if ev.[0] = 'R' || ev.[0] = 'D' then ended := true);
             let (s', acts) = v6sess_step s e in (show s' acts :: acc, s') end) ([show s1 a1], s1) evs in
       emit (String.concat " | " (List.rev outs))
-    | "sl" :: start :: evs ->
+    | ("sl" | "ll") :: start :: evs ->
       (* LCP inside a PPPoE session: start = "fresh" (initPPP + up; the random magic is what the implementation's
          first Configure-Request announces) | "restore:<magic hex8>" (installInMemoryState) *)
       let impl = if !idx < Array.length impl_arr then impl_arr.(!idx) else "" in
@@ -289,6 +291,7 @@ let () =
             | 'k' -> SLAck
             | 'n' -> SLNak (unhex tl)
             | 'j' -> SLRej (unhex tl)
+            | 'T' -> SLTimeout
             | _ -> failwith "ev" in
           let (s', acts) = lsess_step fl s e in
           (* a restored session is in the Open phase: LCP leaving Opened ends it (e9950ea) *)
